@@ -155,7 +155,7 @@ Proof.
   { eapply co_trans; [exact Hf|]. eapply co_trans; [apply (co_set_reg c); left; rewrite Er; discriminate|apply co_reconcile]. }
   destruct (negb okk && negb (kind =? 1)); [exact Hs2|].
   destruct (mem c (closed s2) || mem c (wfail s2)); [exact Hs2|].
-  destruct (isCtl && c_auth r' && (0 <? c_cid r')); [|exact Hs2]. cbn [fst].
+  destruct (okk && isCtl && c_auth r' && (0 <? c_cid r')); [|exact Hs2]. cbn [fst].
   eapply co_trans; [|apply co_update_auth].
   destruct (get (c_cid r') (idx s2)) as [o|]; [|exact Hs2].
   destruct (o =? c); [exact Hs2|]. eapply co_trans; [exact Hs2|apply co_registry_remove].
